@@ -315,7 +315,7 @@ fn main() {
     driver::main(CheckDef {
         prop: "C08",
         level: "model_checking",
-        rule: "every string of length <= 3 (thorough 4) over an 18-character nasty alphabet {a n Z 0 _ : \" \\ LF CR { } , = # space é NUL} in each role (metric name, label key, label value, global label name, global label value, description; names/keys non-empty), every string of length <= 7 (9) over the escaper's four character classes {LF \" \\ n} for label values and descriptions, pairs of roles, and all 17 Unit values x unit-suffix on/off x awkward names; each for counter/gauge/summary/histogram on a fresh recorder with a bystander family; render() output must parse under a strict grammar (line classes, name grammars, escapes, value forms, one TYPE before samples, allowed suffixes) and come back with exactly the registered families, samples and label counts; distinct = distinct (family name, type, sample-name set)",
+        rule: "every string of length <= 3 (thorough 4) over an 18-character nasty alphabet {a n Z 0 _ : \" \\ LF CR { } , = # space é NUL} in each role (metric name, label key, label value, global label name, global label value, description; names/keys non-empty), every string of length <= 7 (9) over the escaper's four character classes {LF \" \\ n} for label values and descriptions, pairs of roles, and all 17 Unit values x unit-suffix on/off x awkward names; each for counter/gauge/summary/histogram on a fresh recorder with a bystander family; render() output must parse under a strict grammar (line classes, name grammars, escapes, value forms, one TYPE before samples, allowed suffixes) and come back with exactly the registered families, samples and label counts; distinct = distinct (family name, type, sample-name set); role `long`: runs of one symbol (a, quote, backslash, LF, é) of length c-3..c+3 for c in {64,128,256,512,1024,4096} (thorough: up to 65536) followed by a tail of symbols that need escaping, as label value, global label value, description, name and label key",
         assumptions: &["the C07 precondition: sanitised names distinct, label names not le/quantile (the alphabets cannot produce a collision)"],
         parts,
         run,
